@@ -63,17 +63,17 @@ Print Assumptions pb_roundtrip.
 
 (* For every set of configured runners and every history of AdvanceWatermark (any senders, known or not, any
    order, regressing or not) and SetTimer calls, the registry's cached watermark is the specified composite:
-   before the first watermark message the zero time.Time (year 1, below the epoch - what the code starts
-   with); afterwards the MINIMUM over all participants (configured runners and senders seen so far) of their
-   latest report, where a runner that has not reported counts as the epoch and only a sender's most recent
-   message counts. *)
+   the MINIMUM over all participants (configured runners and senders seen so far) of their latest report,
+   where a runner that has not reported counts as the epoch and only a sender's most recent message counts;
+   in particular it is the epoch before the first watermark message (code repaired: 9b0e491). *)
 Theorem composite_is_min : forall ids ops,
   let msgs := rop_msgs ops in
   let c := r_wm (reg_run (reg_new ids) ops) in
   c = spec_composite ids msgs /\
-  (msgs = [] -> c = go_zero_time /\ go_zero_time < epoch) /\
-  (msgs <> [] -> (forall s, In s (participants ids msgs) -> c <= latest msgs s) /\
-                 (exists s, In s (participants ids msgs) /\ c = latest msgs s)) /\
+  (participants ids msgs <> [] ->
+     (forall s, In s (participants ids msgs) -> c <= latest msgs s) /\
+     (exists s, In s (participants ids msgs) /\ c = latest msgs s)) /\
+  (participants ids msgs = [] -> c = epoch) /\
   (forall s, ~ In s (map fst msgs) -> latest msgs s = epoch) /\
   (forall m1 s t m2, msgs = m1 ++ (s, t) :: m2 -> ~ In s (map fst m2) -> latest msgs s = t).
 Proof. exact composite_is_min_full. Qed.
@@ -87,9 +87,13 @@ Theorem no_timer_beyond_min : forall ids ops i fired w,
 Proof. exact no_timer_beyond_min_full. Qed.
 Print Assumptions no_timer_beyond_min.
 
-(* SetTimer at or before the composite watermark is a no-op *)
-Theorem set_timer_guard : forall r k t, t <= r_wm r -> set_timer r k t = r.
-Proof. exact set_timer_guard_full. Qed.
+(* the SetTimer guard: a timer at or before the composite watermark is dropped (so a timer at or before the
+   epoch set before any watermark message is a no-op); a later one is stored and the watermark is untouched *)
+Theorem set_timer_guard : forall r k t,
+  (t <= r_wm r -> set_timer r k t = r) /\
+  (r_wm r < t -> In (swrap64 t, k) (r_timers (set_timer r k t)) /\ r_wm (set_timer r k t) = r_wm r) /\
+  (forall ids, t <= epoch -> set_timer (reg_new ids) k t = reg_new ids).
+Proof. exact set_timer_guard_full2. Qed.
 Print Assumptions set_timer_guard.
 
 (* For every handler (any function), every batch size, every interleaving of keyed events and watermark
@@ -122,12 +126,19 @@ Proof. vm_compute. reflexivity. Qed.
 (* the repository's two-upstream scenario, in both arrival orders, and an unknown sender *)
 Example reg_example :
   reg_trace (reg_new [1%N; 2%N]) [RSet 7 (tm 2 0); RAdv 1 (Some (2, 0)); RAdv 2 (Some (1, 0)); RAdv 2 (Some (2, 0))]
-  = [([], go_zero_time); ([], 0); ([], tm 1 0); ([(tm 2 0, 7%N)], tm 2 0)] /\
+  = [([], 0); ([], 0); ([], tm 1 0); ([(tm 2 0, 7%N)], tm 2 0)] /\
   reg_trace (reg_new [1%N; 2%N]) [RSet 7 (tm 2 0); RAdv 2 (Some (2, 0)); RAdv 9 (Some (5, 0)); RAdv 1 (Some (3, 0)); RAdv 1 (Some (1, 0))]
-  = [([], go_zero_time); ([], 0); ([], 0); ([(tm 2 0, 7%N)], tm 2 0); ([], tm 1 0)].
+  = [([], 0); ([], 0); ([], 0); ([(tm 2 0, 7%N)], tm 2 0); ([], tm 1 0)].
 Proof. vm_compute. split; reflexivity. Qed.
 Example op_example :
   map (map c_told) (op_trace (fun _ evs => map (fun e => match e with HK _ k ts => (k, ts) | HT k _ => (k, []) end) evs) 1 (op_new [1%N; 2%N])
     [OEv 1 1 7 [Some (2, 0)]; OWm 1 (Some (3, 0)); OWm 2 (Some (2, 5)); OEv 2 2 7 []])
-  = [[(-62135596800, 0)]; []; [(2, 5)]; [(2, 5)]].
+  = [[(0, 0)]; []; [(2, 5)]; [(2, 5)]].
 Proof. vm_compute. reflexivity. Qed.
+
+(* the code before the repair violated handler_told_composite on the very first call *)
+Lemma handler_told_before_fix_refuted_w :
+  exists ids ops calls c,
+    nth_error (op_trace (fun _ _ => []) 1 {| o_reg := reg_new_before_fix ids; o_batch := [] |} ops) 0 = Some calls /\
+    In c calls /\ c_told c <> pb_new (spec_composite ids (oop_msgs (firstn 1 ops))).
+Proof. exact handler_told_before_fix_refuted. Qed.
